@@ -12,7 +12,11 @@ HARNESSES = [dict(name="pppoe", pkg="./internal/pppoe/", test="TestVerifC02", ti
                   files=[("internal/pppoe/zz_verif_c02_test.go", "harness/C02/zz_verif_c02_test.go"),
                          ("pkg/allocator/zz_verif_c02_snap.go", "harness/C02/zz_verif_c02_alloc_snap.go"),
                          ("plugins/dhcp4/local/zz_verif_c02_snap.go", "harness/C02/zz_verif_c02_dhcp4_snap.go")])]
-VARIANTS = ["repaired", "defective"]
+# repaired = no defect, defective = the code today (all four); the remaining combinations of the four recorded
+# defects (flags: constant fall-back, unchecked release, expiry take-over release, untracked statics) keep the
+# check meaningful while fix patches are applied one at a time.
+VARIANTS = ["repaired", "defective"] + ["v%d%d%d%d" % (a, b, c, d) for a in (0, 1) for b in (0, 1) for c in (0, 1)
+                                        for d in (0, 1) if (a, b, c, d) not in ((0, 0, 0, 0), (1, 1, 1, 1))]
 MODEL_NEEDS_IMPL = True
 RULE = ("random configurations: 1-3 IPv4 pools (0-3 addresses, exclusions, two profiles, VRFs 0/1, globally disjoint "
         "ranges, sometimes one containing 100.64.0.1), 0-2 IA_NA pools, 0-2 PD pools (/63 or /62 -> /64); 2-5 "
@@ -311,7 +315,7 @@ def signature(case, impl, models):
     o = ops[k - 1]
     ires, mres = iseg.split(" | ")[0], mseg.split(" | ")[0]
     il, ml = leases_of(iseg), leases_of(mseg)
-    if o[0] == "PA" and "told=%d" % FALLBACK in ires and "told=nil" in mres:
+    if o[0] == "PA" and o[3] != str(FALLBACK) and "told=%d" % FALLBACK in ires and "told=nil" in mres:
         return "pppoe-startncp-constant-fallback"
     if o[0] in ("PT", "IR", "IT"):
         lost = [s for key, s in ml.items() if key not in il]
